@@ -247,3 +247,30 @@ M("repair-D9", "C14", FIT, "        # constraints=constraints,\n        bounds=b
 M("repair-D15", "C17", U, "        assert len(x) <= 2\n        assert len(y) <= 2\n", "", expect="repaired", rules=["C17.all"], what="asserts on the number of crossings removed")
 M("repair-D10", "C15", U, "    order = list(nx.dfs_preorder_nodes(T, 0))\n", "    order = list(nx.dfs_preorder_nodes(T, 0))\n    if len(order) != len(points):\n        raise RuntimeError(\"points do not form one continuous line\")\n", expect="repaired", rules=["C15.perm"], what="length guard on the order")
 M("repair-D11", "C03", C, "        angles = np.arange(\n            0.5 * np.pi + 2 * rad_step, -1.5 * np.pi + rad_step, -1 * rad_step\n        )", "        n_angles = int(round(360 / deg_step)) + 1\n        angles = 0.5 * np.pi + 2 * rad_step - rad_step * np.arange(n_angles)", expect="repaired", rules=["C03.grid"], what="direction grid enumerated by integer count")
+
+# ------------------------------------------------------------------ rules added after the second seed round
+M("c10-ppi-by-value", ["C10", "C09"], I, "np.isin(positions, idc, assume_unique=True) for idc in interval_idc", "np.isin(data, data[idc]) for idc in interval_idc",
+  rules={"C10": ["C10.ppi"], "C09": ["C09.membership"]}, what="PPI masks by value membership (ties)")
+M("c10-twin-ppi-mask-store", "C10", I, "        interval_slices = [\n            np.isin(positions, idc, assume_unique=True) for idc in interval_idc\n        ]",
+  "        interval_slices = [np.isin(positions, chunk) for chunk in interval_idc]", expect="pass", what="renamed comprehension variable, default isin")
+M("c10-slicer-state", ["C10", "C19"], I, "        else:\n            value_range = (min(data), max(data))", "        else:\n            self.value_range = value_range = (min(data), max(data))",
+  rules={"C10": ["C10.stateless"], "C19": ["C19.nomodelwrite"]}, what="slicer remembers the data-derived range")
+M("c15-graph-prune", "C15", U, "    G = clf.kneighbors_graph()\n", "    G = clf.kneighbors_graph()\n    G.data[::7] = 0\n    G.eliminate_zeros()\n", rules=["C15.graph"], what="edges removed from the neighbour graph")
+M("c15-graph-distance", "C15", U, "    G = clf.kneighbors_graph()\n", '    G = clf.kneighbors_graph(mode="distance")\n', rules=["C15.graph"], what="distance-weighted graph")
+M("c15-graph-subset", "C15", U, "    clf = NearestNeighbors(n_neighbors=2).fit(points)", "    clf = NearestNeighbors(n_neighbors=2).fit(points[::2])", rules=["C15.graph"], what="graph over a subset of the points")
+M("c15-twin-graph-name", "C15", U, "    G = clf.kneighbors_graph()\n    T = nx.from_scipy_sparse_array(G)", "    neighbour_graph = clf.kneighbors_graph()\n    T = nx.from_scipy_sparse_array(neighbour_graph)", expect="pass")
+M("c16-reject-envelope-early", "C16", J, "        x = np.linspace(x_min, x_max, 1000)\n        y = pdf(x)", "        x = np.linspace(x_min, highest_possible_x_max, 1000)\n        y = pdf(x)",
+  rules=["C16.reject"], what="envelope grid on another interval than the candidates")
+M("c16-reject-factor", "C16", J, "f_max = y.max() * 1.001", "f_max = y.max() * 0.999", rules=["C16.reject"], what="envelope below the grid maximum")
+M("c16-reject-le-size", "C16", J, "            y = rng.uniform(f_min, f_max, size=tmp_n)", "            y = rng.uniform(f_min, f_max, size=n)", rules=["C16.reject"], what="ordinate candidates of another size")
+M("c16-reject-floor", "C16", J, "        f_min = 0.0\n", "        f_min = y.min()\n", rules=["C16.reject"], what="ordinates do not start at 0")
+M("c16-reject-kept", "C16", J, "                partial_samples.append(x[accept_mask])", "                partial_samples.append(y[accept_mask])", rules=["C16.reject"], what="keeps the ordinates")
+M("c16-twin-reject-names", "C16", J, "        x = np.linspace(x_min, x_max, 1000)\n        y = pdf(x)\n        f_min = 0.0\n        f_max = y.max() * 1.001",
+  "        grid = np.linspace(x_min, x_max, 1000)\n        f_min = 0.0\n        f_max = 1.001 * np.max(pdf(grid))", expect="pass")
+M("c11-shared-kwargs", ["C11", "C12"], D, '        fparams = {"floc": 0}\n\n        if self.f_delta is not None:', '        fparams = self._fit_defaults\n\n        if self.f_delta is not None:',
+  rules={"C11": ["C11.mle"], "C12": ["C12.call"]}, what="fit keywords collected in an object attribute")
+M("c20-memo-reader", ["C20"], U, "def read_ec_benchmark_dataset(file_path=None):", "import functools\n\n\n@functools.lru_cache(maxsize=None)\ndef _parse(file_path):\n    data = pd.read_csv(file_path, sep=\";\", skipinitialspace=True)\n    data.index = pd.to_datetime(data.pop(data.columns[0]), format=\"%Y-%m-%d-%H\")\n    return data\n\n\ndef read_ec_benchmark_dataset(file_path=None):",
+  expect="pass", what="an unused memoised helper changes nothing for C20 (C19.globals reports the memo)", rules=None)
+M("c05-memo-args", ["C05", "C19"], D, "        args_with_default = list(self.parameters.values())", "        self._last_args = args_with_default = list(self.parameters.values())",
+  rules={"C05": ["C05.stateless"], "C19": ["C19.nomodelwrite"]}, what="evaluation helper writes an attribute")
+M("c17-mutate-contour", ["C17", "C19"], U, "    coords = contour.coordinates\n", "    coords = contour.coordinates\n    coords.sort(axis=0)\n", rules={"C17": ["C17.stateless"], "C19": ["C19.noargmut"]}, what="sorts the caller's coordinates in place")
